@@ -8,6 +8,7 @@
 package c13gen
 
 import (
+	"errors"
 	"fmt"
 	"io/fs"
 	"os"
@@ -633,7 +634,14 @@ const chain = "l1/l2/l3/l4/l5/l6"
 // NewSandbox prefers a memory file system (the cases create and delete a few directories each;
 // on a journalled disk that dominates the run time) and falls back to TMPDIR.
 func NewSandbox() (*Sandbox, error) {
-	top, err := os.MkdirTemp("/dev/shm", "verif-c13-")
+	// native fuzz workers are killed, not finished: they put their sandboxes where the driver removes them afterwards
+	top, err := "", errors.New("unset")
+	if d := os.Getenv("VERIF_SANDBOX_TOP"); d != "" {
+		top, err = os.MkdirTemp(d, "verif-c13-")
+	}
+	if err != nil {
+		top, err = os.MkdirTemp("/dev/shm", "verif-c13-")
+	}
 	if err != nil {
 		top, err = os.MkdirTemp("", "c13-")
 	}
